@@ -355,9 +355,20 @@ def programs(draw):
     if rtype == "Real32":
         val = st.one_of(st.floats(-4, 4, width=32), st.floats(0.0625, 6, width=32), st.integers(-3, 5).map(float))
     vars_ = [draw(val) for _ in range(n)]
+    # in-place branch probe (seed C01-6: Log1pExp negated its argument in place in the branch
+    # 18 < x <= 33.3): a copy of a variable anywhere in [-41, 41] is overwritten by a branching unary
+    # operation of itself, then the generic steps follow
+    probe = rtype == "Real64" and draw(st.integers(0, 5)) == 0
+    if probe:
+        vars_[0] = draw(st.one_of(st.floats(-41, 41), st.floats(17, 34), st.sampled_from(special_points)))
     nreg = n
     prog = []
-    steps = draw(st.integers(1, 7))
+    if probe:
+        pop = draw(st.sampled_from(["Log1pExp", "Logistic", "Sigmoid", "Tanh", "Log1pExp"]))
+        prog.append({"op": "Set", "dst": n, "a": 0, "b": -1, "ka": "reg", "va": None, "cc": False})
+        prog.append({"op": pop, "dst": n, "a": n, "b": -1, "ka": "reg", "va": None, "cc": False})
+        nreg = n + 1
+    steps = draw(st.integers(0 if probe else 1, 3 if probe else 7))
     for _ in range(steps):
         family = draw(st.sampled_from(["u", "u", "u", "b", "b", "b", "b", "v", "v", "p"]))
         # the receiver: a fresh register or an existing intermediate (temporaries are reused, the
@@ -539,6 +550,8 @@ def check_program(case, srv, stats):
         classes.append("receiver is one of its operands")
     if len(set(i["dst"] for i in case["prog"])) < len(case["prog"]):
         classes.append("temporary reused")
+    if len(case["prog"]) >= 2 and case["prog"][0]["op"] == "Set" and case["prog"][1]["dst"] == case["prog"][1].get("a") == case["prog"][0]["dst"]:
+        classes.append("in-place branch probe")
     stats.case(desc, classes, nontrivial)
 
 
